@@ -298,7 +298,7 @@ def run(tier, seed):
     core.pmerge(_table_task, tasks, acc)
     core.pmerge(_first_byte_task, [(n, s) for n in ["T11", "T23", "T29", "T31", "T43", "T59", "T509", "T263"] for s in "ABS"], acc)
     core.pmerge(_entropy_tree_task, [(n, s) for n in ["T1543", "T263", "T23", "T29"] for s in ("A", "S")], acc)
-    core.pmerge(_shipped_task, [(n, seed) for n in T.SHIPPED], acc)
+    core.pmerge(_shipped_task, [(n, seed) for n in T.SHIPPED + T.WIDE], acc)
     # sessions built with the default entropy source: two sessions sharing a scalar would make their messages differ by (w1-w2)*M
     from .c16 import _default_entropy_task
     d = core.pmerge(_default_entropy_task, [(300 if tier == "quick" else 1500,)])
